@@ -5835,6 +5835,9 @@ write_function_instance(ostream &out, FunctionRemap *remap,
         type_check = "PyLongOrInt_Check(arg)";
         extra_convert
           << "long " << param_name << " = PyLongOrInt_AS_LONG(arg);\n";
+        // The conversion fails for a value that does not fit in a long.
+        extra_param_check << " && !(" << param_name << " == -1 && PyErr_Occurred())";
+        clear_error = true;
 
         pexpr_string = "(" + type->get_local_name(&parser) + ")" + param_name;
       } else {
@@ -5888,6 +5891,8 @@ write_function_instance(ostream &out, FunctionRemap *remap,
         extra_convert
           << "}\n"
           << "#endif\n";
+        extra_param_check << " && !(arg_val == -1 && PyErr_Occurred())";
+        clear_error = true;
 
         pexpr_string = "(" + type->get_local_name(&parser) + ")arg_val";
 
@@ -5907,6 +5912,10 @@ write_function_instance(ostream &out, FunctionRemap *remap,
         type_check = "PyLongOrInt_Check(arg)";
         extra_convert
           << "unsigned long " << param_name << " = PyLong_AsUnsignedLong(arg);\n";
+        // The conversion fails for negative values and for values that do
+        // not fit in an unsigned long.
+        extra_param_check << " && !(" << param_name << " == (unsigned long)-1 && PyErr_Occurred())";
+        clear_error = true;
         pexpr_string = "(" + type->get_local_name(&parser) + ")" + param_name;
       } else {
         indent(out, indent_level) << "unsigned long " << param_name << default_expr << ";\n";
@@ -5939,7 +5948,11 @@ write_function_instance(ostream &out, FunctionRemap *remap,
     } else if (TypeManager::is_long(type)) {
       // Signed longs are equivalent to Python's int type.
       if (args_type == AT_single_arg) {
-        pexpr_string = "PyLongOrInt_AS_LONG(arg)";
+        extra_convert
+          << "long arg_val = PyLongOrInt_AS_LONG(arg);\n";
+        extra_param_check << " && !(arg_val == -1 && PyErr_Occurred())";
+        clear_error = true;
+        pexpr_string = "arg_val";
         type_check = "PyLongOrInt_Check(arg)";
       } else {
         indent(out, indent_level) << "long " << param_name << default_expr << ";\n";
@@ -5968,6 +5981,8 @@ write_function_instance(ostream &out, FunctionRemap *remap,
         extra_convert
           << "}\n"
           << "#endif\n";
+        extra_param_check << " && !(arg_val == -1 && PyErr_Occurred())";
+        clear_error = true;
 
         pexpr_string = "(" + type->get_local_name(&parser) + ")arg_val";
 
@@ -5981,7 +5996,13 @@ write_function_instance(ostream &out, FunctionRemap *remap,
 
     } else if (TypeManager::is_double(type)) {
       if (args_type == AT_single_arg) {
-        pexpr_string = "PyFloat_AsDouble(arg)";
+        // PyNumber_Check() also accepts objects that cannot be converted to
+        // a float, so the conversion itself has to be checked.
+        extra_convert
+          << "double arg_val = PyFloat_AsDouble(arg);\n";
+        extra_param_check << " && !(arg_val == -1.0 && PyErr_Occurred())";
+        clear_error = true;
+        pexpr_string = "arg_val";
         type_check = "PyNumber_Check(arg)";
       } else {
         indent(out, indent_level) << "double " << param_name << default_expr << ";\n";
@@ -5993,7 +6014,11 @@ write_function_instance(ostream &out, FunctionRemap *remap,
 
     } else if (TypeManager::is_float(type)) {
       if (args_type == AT_single_arg) {
-        pexpr_string = "(" + type->get_local_name(&parser) + ")PyFloat_AsDouble(arg)";
+        extra_convert
+          << "double arg_val = PyFloat_AsDouble(arg);\n";
+        extra_param_check << " && !(arg_val == -1.0 && PyErr_Occurred())";
+        clear_error = true;
+        pexpr_string = "(" + type->get_local_name(&parser) + ")arg_val";
         type_check = "PyNumber_Check(arg)";
       } else {
         indent(out, indent_level) << "float " << param_name << default_expr << ";\n";
